@@ -34,6 +34,7 @@ import (
 	dist "github.com/acquirecloud/golibs/kvs/distlock"
 	"github.com/acquirecloud/golibs/kvs/inmem"
 	gsync "github.com/acquirecloud/golibs/sync"
+	"github.com/acquirecloud/golibs/timeout"
 )
 
 // holdStore passes every call through; the first CasByVersion on `key` announces itself and waits for `release`
@@ -150,6 +151,16 @@ func runLeaseOnce(c *Case) *leaseSummary {
 		sum.canaryMax = time.Duration(atomic.LoadInt64(&canaryMax))
 	}()
 
+	if f.Warm {
+		// the timer package has served a burst just before: several of its workers are parked idle when the scenario starts
+		var bw sync.WaitGroup
+		for i := 0; i < 3; i++ {
+			bw.Add(1)
+			timeout.Call(func() { time.Sleep(200 * time.Microsecond); bw.Done() }, time.Millisecond)
+		}
+		bw.Wait()
+		time.Sleep(3 * time.Millisecond)
+	}
 	cs := &csCounter{}
 	guard := func(what string, fn func()) {
 		defer func() {
@@ -430,6 +441,7 @@ func leaseCase(prop string, seed uint64, i int) Case {
 		f.Scn = "cancel"
 		f.HoldU = r.Range(30, 36) // Locker B holds for 1.5 .. 1.8 lease periods
 	}
+	f.Warm = i%4 >= 2
 	c.Free = f
 	return c
 }
